@@ -353,7 +353,8 @@ def coq_obs(ex, hits, listing) -> str:
 
 
 def coq_init(table: str, version: int, tfcols: list[str], params: int, fixes: dict) -> str:
-    fx = f"{{| fx77 := {coq_bool(fixes['fx77'])}; fx716 := {coq_bool(fixes['fx716'])} |}}"
+    fx = (f"{{| fx77 := {coq_bool(fixes['fx77'])}; fx716 := {coq_bool(fixes['fx716'])}; "
+          f"fx715 := {coq_bool(fixes.get('fx715', False))} |}}")
     return (f"(init_state K [LPlain {coq_string(table)}] {coq_nat(version)} "
             f"{coq_list([coq_string(c) for c in tfcols], 'string')} {coq_nat(params)} 5 6 {fx})")
 
